@@ -6,11 +6,12 @@ _F = "eqsig/fns/time_step.py"
 _RS_HEAD = ("    from scipy.signal import resample\n"
             "    factor = asig.dt / target_dt\n"
             "    if factor == 1:\n"
-            "        pass\n"
+            "        new_npts = asig.npts\n"
             "    elif factor > 1:\n"
             "        factor = int(np.ceil(factor))\n"
+            "        new_npts = factor * asig.npts\n"
             "    else:\n"
-            "        factor = 1 / np.floor(1 / factor)\n")
+            "        step = np.floor(1 / factor)\n")
 
 MUTANTS = [
     # ---- interp_array_to_approx_dt (first occurrence of the shared lines)
@@ -72,11 +73,11 @@ MUTANTS = [
          why="why_tests_cant: refinement factor rounded down in the Fourier variant"),
     dict(id="c14-resample-decim-ceil", prop="C14", file=_F,
          old=_RS_HEAD,
-         new=_RS_HEAD.replace("1 / np.floor(1 / factor)", "1 / np.ceil(1 / factor)"),
+         new=_RS_HEAD.replace("step = np.floor(1 / factor)", "step = np.ceil(1 / factor)"),
          why="decimation factor rounded up in the Fourier variant"),
     dict(id="c14-resample-even-ignored", prop="C14", file=_F,
-         old="    new_npts = factor * asig.npts\n    if even:\n",
-         new="    new_npts = factor * asig.npts\n    if False:\n",
+         old="(step = 49)\n    if even:\n",
+         new="(step = 49)\n    if False:\n",
          why="even flag ignored by the Fourier variant"),
     dict(id="c14-resample-reports-target", prop="C14", file=_F,
          old="    return eqsig.AccSignal(acc_interp, asig.dt / factor)\n",
@@ -95,4 +96,9 @@ MUTANTS = [
 MUTANTS += [
     dict(id="c14-revert-int-count", prop="C14", file="eqsig/fns/time_step.py",
          old="    else:\n        new_npts = int(np.round(new_npts))\n    acc_interp = resample", new="    acc_interp = resample", why="reverts fix C14-F1"),
+]
+MUTANTS += [
+    dict(id="c14-revert-decimated-length", prop="C14", file="eqsig/fns/time_step.py",
+         old="        new_npts = asig.npts / step  #", new="        new_npts = factor * asig.npts  #",
+         why="reverts fix C14-F2: length fl(1/k)*npts falls below npts/k for k = 49, 98, ..."),
 ]
